@@ -403,9 +403,13 @@ impl AdjacencyMap {
         false,
     @after `let order = self.order();`
         broadcast use lemma_map_verts_contains;
+    @before `return false;`
         proof {
+            // fewer arcs than unordered pairs: some pair is not joined
             lemma_rows_sum_bound(*self, order as int);
             lemma_map_pair_count(*self);
+            assert(order * (order - 1) == order * order - order) by (nonlinear_arith) requires order >= 1;
+            assert(self.arc_count() <= order * (order - 1));
         }
     @loop 1
     invariant
@@ -456,8 +460,6 @@ impl AdjacencyMap {
             assert(self.key_seq().to_set().contains(self.key_seq()[it3.index() as int]));
             assert(self.arcs@.contains_key(u) && self.arcs@.contains_key(v));
         }
-    @before #2 `return false;`
-        proof { assert(!map_joined(*self, u as int, v as int)); }
     @loop_end 2
         proof {
             // the inner loop has compared u with every vertex
@@ -492,8 +494,14 @@ impl AdjacencyMap {
         proof {
             lemma_contiguous_key_seq(*self);
             assert(order * (order - 1) <= usize::MAX) by (nonlinear_arith) requires 1 <= order <= 0x1_0000_0000;
+        }
+    @before `return false;`
+        proof {
+            // fewer arcs than unordered pairs: some pair is not joined
             lemma_rows_sum_bound(*self, order as int);
             lemma_map_pair_count(*self);
+            assert(order * (order - 1) == order * order - order) by (nonlinear_arith) requires order >= 1;
+            assert(self.arc_count() <= order * (order - 1));
         }
     @loop 1
     invariant
@@ -567,6 +575,194 @@ impl AdjacencyMap {
                 assert(self.key_seq().to_set().contains(a as usize));
                 let i = choose|i: int| 0 <= i < self.key_seq().len() && self.key_seq()[i] == a as usize;
                 assert(map_joined(*self, self.key_seq()[i] as int, (b as usize) as int));
+            }
+        }
+    @*/
+}
+
+impl AdjacencyMap {
+    /*@fn impl=AdjacencyMap trait=IsTournament name=is_tournament props=C12,C13
+    requires
+        self.wf(),
+    ensures
+        r == map_tournament(*self),
+    @closure 1 || -> (x: &BTreeSet<usize>)
+    requires
+        false,
+    @after `let order = self.order();`
+        broadcast use lemma_map_verts_contains;
+    @before `return false;`
+        proof {
+            // the number of arcs differs from the number of unordered pairs: some pair is not joined exactly once
+            lemma_rows_sum_bound(*self, order as int);
+            lemma_map_pair_count(*self);
+            assert(order * (order - 1) == order * order - order) by (nonlinear_arith) requires order >= 1;
+            assert(self.arc_count() <= order * (order - 1));
+        }
+    @loop 1
+    invariant
+        it1.iter.obeys_prophetic_iter_laws(),
+        it1.iter.decrease() is Some,
+        self.wf(),
+        order == self.ord(),
+        is_key_seq(self.arcs@.dom(), self.key_seq()),
+        self.key_seq().len() == order,
+        it1.seq() == self.key_seq(),
+        out_neighbors@.len() == it1.index(),
+        forall|k: int| 0 <= k < it1.index() ==> *(#[trigger] out_neighbors@[k]) == self.arcs@[self.key_seq()[k]],
+    @loop_start 1
+        proof {
+            // u is a vertex: it has a row, the fallback `empty_set()` is not reached
+            assert(self.key_seq().to_set().contains(self.key_seq()[it1.index() as int]));
+            assert(self.arcs@.contains_key(u));
+        }
+    @loop 2
+    invariant
+        it2.iter.obeys_prophetic_iter_laws(),
+        it2.iter.decrease() is Some,
+        self.wf(),
+        order == self.ord(),
+        is_key_seq(self.arcs@.dom(), self.key_seq()),
+        self.key_seq().len() == order,
+        it2.seq() == self.key_seq(),
+        rows_at(*self, out_neighbors@),
+        forall|i: int, b: usize| 0 <= i < it2.index() && self.arcs@.contains_key(b) && b != self.key_seq()[i]
+            ==> #[trigger] map_joined_once(*self, self.key_seq()[i] as int, b as int),
+    @loop 3
+    invariant
+        it3.iter.obeys_prophetic_iter_laws(),
+        it3.iter.decrease() is Some,
+        self.wf(),
+        order == self.ord(),
+        is_key_seq(self.arcs@.dom(), self.key_seq()),
+        self.key_seq().len() == order,
+        it3.seq() == self.key_seq(),
+        rows_at(*self, out_neighbors@),
+        0 <= it2.index() < order,
+        u == self.key_seq()[it2.index() as int],
+        forall|j: int| 0 <= j < it3.index() && self.key_seq()[j] != u ==> #[trigger] map_joined_once(*self, u as int, self.key_seq()[j] as int),
+    @loop_start 3
+        proof {
+            // u and v are vertex IDS; they are used as POSITIONS in `out_neighbors`: in bounds only if ids are positions
+            assert(self.key_seq().to_set().contains(self.key_seq()[it2.index() as int]));
+            assert(self.key_seq().to_set().contains(self.key_seq()[it3.index() as int]));
+            assert(self.arcs@.contains_key(u) && self.arcs@.contains_key(v));
+        }
+    @loop_end 2
+        proof {
+            // the inner loop has compared u with every vertex
+            assert forall|b: usize| self.arcs@.contains_key(b) && b != u implies map_joined_once(*self, u as int, b as int) by {
+                assert(self.key_seq().to_set().contains(b));
+                let j = choose|j: int| 0 <= j < self.key_seq().len() && self.key_seq()[j] == b;
+                assert(map_joined_once(*self, u as int, self.key_seq()[j] as int));
+            }
+        }
+    @fn_end
+        proof {
+            assert forall|a: int, b: int| self.verts().contains(a) && self.verts().contains(b) && a != b implies #[trigger] map_joined_once(*self, a, b) by {
+                assert(self.key_seq().to_set().contains(a as usize));
+                let i = choose|i: int| 0 <= i < self.key_seq().len() && self.key_seq()[i] == a as usize;
+                assert(map_joined_once(*self, self.key_seq()[i] as int, (b as usize) as int));
+            }
+        }
+    @*/
+
+    /*@fn impl=AdjacencyMap trait=IsTournament name=is_tournament rename=is_tournament_contiguous props=C12,C13
+    requires
+        self.wf(),
+        self.contiguous(),
+        self.ord() <= 0x1_0000_0000,
+    ensures
+        r == map_tournament(*self),
+    @closure 1 || -> (x: &BTreeSet<usize>)
+    requires
+        false,
+    @after `let order = self.order();`
+        broadcast use lemma_map_verts_contains;
+        proof {
+            lemma_contiguous_key_seq(*self);
+            assert(order * (order - 1) <= usize::MAX) by (nonlinear_arith) requires 1 <= order <= 0x1_0000_0000;
+        }
+    @before `return false;`
+        proof {
+            // the number of arcs differs from the number of unordered pairs: some pair is not joined exactly once
+            lemma_rows_sum_bound(*self, order as int);
+            lemma_map_pair_count(*self);
+            assert(order * (order - 1) == order * order - order) by (nonlinear_arith) requires order >= 1;
+            assert(self.arc_count() <= order * (order - 1));
+        }
+    @loop 1
+    invariant
+        it1.iter.obeys_prophetic_iter_laws(),
+        it1.iter.decrease() is Some,
+        self.wf(),
+        order == self.ord(),
+        is_key_seq(self.arcs@.dom(), self.key_seq()),
+        self.key_seq().len() == order,
+        it1.seq() == self.key_seq(),
+        out_neighbors@.len() == it1.index(),
+        forall|k: int| 0 <= k < it1.index() ==> *(#[trigger] out_neighbors@[k]) == self.arcs@[self.key_seq()[k]],
+    @loop_start 1
+        proof {
+            // u is a vertex: it has a row, the fallback `empty_set()` is not reached
+            assert(self.key_seq().to_set().contains(self.key_seq()[it1.index() as int]));
+            assert(self.arcs@.contains_key(u));
+        }
+    @loop 2
+    invariant
+        it2.iter.obeys_prophetic_iter_laws(),
+        it2.iter.decrease() is Some,
+        self.wf(),
+        self.contiguous(),
+        forall|k: int| 0 <= k < order ==> #[trigger] self.key_seq()[k] == k,
+        order == self.ord(),
+        is_key_seq(self.arcs@.dom(), self.key_seq()),
+        self.key_seq().len() == order,
+        it2.seq() == self.key_seq(),
+        rows_at(*self, out_neighbors@),
+        forall|i: int, b: usize| 0 <= i < it2.index() && self.arcs@.contains_key(b) && b != self.key_seq()[i]
+            ==> #[trigger] map_joined_once(*self, self.key_seq()[i] as int, b as int),
+    @loop 3
+    invariant
+        it3.iter.obeys_prophetic_iter_laws(),
+        it3.iter.decrease() is Some,
+        self.wf(),
+        self.contiguous(),
+        forall|k: int| 0 <= k < order ==> #[trigger] self.key_seq()[k] == k,
+        order == self.ord(),
+        is_key_seq(self.arcs@.dom(), self.key_seq()),
+        self.key_seq().len() == order,
+        it3.seq() == self.key_seq(),
+        rows_at(*self, out_neighbors@),
+        0 <= it2.index() < order,
+        u == self.key_seq()[it2.index() as int],
+        forall|j: int| 0 <= j < it3.index() && self.key_seq()[j] != u ==> #[trigger] map_joined_once(*self, u as int, self.key_seq()[j] as int),
+    @loop_start 3
+        proof {
+            // u and v are vertex IDS; they are used as POSITIONS in `out_neighbors`: in bounds only if ids are positions
+            assert(self.key_seq().to_set().contains(self.key_seq()[it2.index() as int]));
+            assert(self.key_seq().to_set().contains(self.key_seq()[it3.index() as int]));
+            assert(self.arcs@.contains_key(u) && self.arcs@.contains_key(v));
+            assert(u < order && v < order);
+            assert(self.key_seq()[u as int] == u && self.key_seq()[v as int] == v);
+        }
+    @before #2 `return false;`
+        proof { assert(!map_joined_once(*self, u as int, v as int)); }
+    @loop_end 2
+        proof {
+            // the inner loop has compared u with every vertex
+            assert forall|b: usize| self.arcs@.contains_key(b) && b != u implies map_joined_once(*self, u as int, b as int) by {
+                assert(self.key_seq().to_set().contains(b));
+                let j = choose|j: int| 0 <= j < self.key_seq().len() && self.key_seq()[j] == b;
+                assert(map_joined_once(*self, u as int, self.key_seq()[j] as int));
+            }
+        }
+    @fn_end
+        proof {
+            assert forall|a: int, b: int| self.verts().contains(a) && self.verts().contains(b) && a != b implies #[trigger] map_joined_once(*self, a, b) by {
+                assert(self.key_seq().to_set().contains(a as usize));
+                let i = choose|i: int| 0 <= i < self.key_seq().len() && self.key_seq()[i] == a as usize;
+                assert(map_joined_once(*self, self.key_seq()[i] as int, (b as usize) as int));
             }
         }
     @*/
